@@ -197,6 +197,16 @@ STRINGS = [
     "\U00010000", "\U0001F600", "\U0010FFFF", "日本語", "a\U0001F600b", "\u0080", "߿", "ࠀ",
     FN_KEY, "__blots_function ", "__blots_functio", "__BLOTS_FUNCTION",
 ]
+# strings that look like something else to a JSON / JavaScript / blots reader, or that end in a character with a
+# role in some syntax (round 4: seed C06-7 reserved "NaN"/"Infinity"/"-Infinity", seed C06-8 stripped "//" comments
+# with a scanner confused by a string ENDING in a backslash — neither kind of string was in the pool)
+TRICKY = [
+    "NaN", "nan", "Infinity", "-Infinity", "+Infinity", "inf", "-inf", "undefined", "None", "false", "0", "-", "+1", ".5",
+    "1.", "1e400", "-1e400", "//", "// c", "a // b", "http://example.com/a", "/*", "*/", "/* c */ x", "#", "#x", "--",
+    "C:\\", "a\\", "\\\\\\", "\\\"", "\"\\", "{", "}", "[", "]", "{}", "[]", ",", ":", "\"x\":1", "{\"a\":1}", "[1]",
+    "\n", "\r\n", "\t", "$", "${x}", "%s", "\\u0041", "\\/", "<!--", "&amp;", "'; --",
+]
+STRINGS += TRICKY
 FN_SOURCES = [
     "(y) => y", "sum", "map", "x => x + 1", "(a, b?) => a", "(...r) => r", "(x) => x + nope", "(x) => (y) => x",
     "(x) => {a: x}", "() => 1", "not a function", "", " sum", "Sum", "sum ", "1 + 2", "(y) => y // c", "x = 1",
@@ -1039,6 +1049,12 @@ def main(argv):
             cli_docs.append(("a", [("d", gen_bits(rng, False)) for _ in range(12)]))
         else:
             cli_docs.append(gen_doc(rng, 1 + rng.below(6)))
+    # adjacency documents: every tricky string immediately before and after every other one (as array
+    # neighbours and as key / value), so that a reader whose state is upset by one string meets the other
+    adj = TRICKY if not quick else [t for i, t in enumerate(TRICKY) if i % 2 == (seed % 2)] + ["C:\\", "a // b", "NaN", "\\\""]
+    for s1 in adj:
+        cli_docs.append(("a", [("a", [("s", s1), ("s", t), ("s", s1)]) for t in TRICKY]))
+        cli_docs.append(("a", [("o", [(s1, ("s", t)), (t + "k", ("s", s1))]) for t in TRICKY]))
     jobs = []
     for i, d in enumerate(cli_docs):
         fancy = i % 3 == 2
@@ -1060,9 +1076,49 @@ def main(argv):
 
     with ThreadPoolExecutor(max_workers=8) as ex:
         results = list(ex.map(one, jobs))
+    def cli_fails(d, via):
+        """the two-leg echo oracle on one document, as a predicate (used only to shrink a failing document)"""
+        text = doc_to_text(d)
+        rc, out, err = cli_echo(cli, text, via)
+        if rc != 0:
+            return True
+        try:
+            exp, got = loads_tok('{"x":' + text + "}"), loads_tok(out)
+        except Exception:
+            return True
+        if tree_has_reserved(exp, fn_table):
+            return False
+        if [x for x in compare_json(exp, got) if x[1] != "num-shipped"]:
+            return True
+        rc2, out2, _ = run_cli(cli, [ECHO], stdin_text=out)
+        return rc2 != 0 or bool([x for x in compare_json(got, loads_tok(out2)) if x[1] != "num-shipped"])
+
+    def shrink(d, via):
+        """smallest failing sub-document found by descending into failing children (arrays / objects)"""
+        if via.startswith("bare-"):
+            return d
+        for _round in range(8):
+            kids = [x for x in d[1]] if d[0] == "a" else ([("o", [kv]) for kv in d[1]] + [v for _, v in d[1]] if d[0] == "o" else [])
+            nxt = next((k for k in kids if k != d and cli_fails(k, via)), None)
+            if nxt is None:
+                return d
+            d = nxt
+        return d
+
     cli_known17 = cli_rejected17 = cli_ok = 0
     for (d, text, via), (rc, out, err, rc2, out2) in zip(jobs, results):
         bare = via.startswith("bare-")
+        if not bare and (rc != 0 or rc2 not in (0, None)) and d[0] in ("a", "o") and len(text) > 200:
+            try:
+                d2_ = shrink(d, via)
+                if d2_ != d:
+                    d, text = d2_, doc_to_text(d2_)
+                    rc, out, err = cli_echo(cli, text, via)
+                    rc2 = out2 = None
+                    if rc == 0:
+                        rc2, out2, _ = run_cli(cli, [ECHO], stdin_text=out)
+            except Exception:       # shrinking is best effort; the original document is reported otherwise
+                pass
         rep = {"kind": "cli-echo", "input_json": text if bare else '{"x":' + text + "}", "via": via,
                "program": ECHO1 if bare else ECHO,
                "rerun": "blots %s '%s'  (input via %s)" % ("-i <input_json>" if via.endswith("i") else "",
